@@ -170,3 +170,129 @@ func c06EnumDiscriminant(p *Prog) *RuleResult {
 	r.Floor(1)
 	return r
 }
+
+// C06/R5 directory info follows the path.
+//
+// resolver.finalizeResolve attaches to a resolved file the settings of the directory it lives in:
+// the enclosing tsconfig.json (useDefineForClassFields, experimentalDecorators, target, jsx, …
+// — the options a TypeScript file is erased with), the enclosing package.json (sideEffects, module
+// type). It looks the directory up from the path, then rewrites the path to its real path when a
+// symlink is involved. From that store on, the directory info in hand describes the *old* path:
+// every use of it must be preceded by a fresh lookup (dirInfoCached) for the new path, otherwise a
+// file reached through a symlink is compiled with the tsconfig of the link's location.
+// Rule: from every store to path.Text in finalizeResolve, no instruction that uses a value
+// returned by dirInfoCached (or a phi of such values) is reachable without first passing another
+// dirInfoCached call.
+func c06DirInfoFollowsPath(p *Prog) *RuleResult {
+	r := NewRule("C06/R5 dirinfo-follows-path", "after finalizeResolve rewrites a path to its real path, the directory info (tsconfig, package.json) is looked up again before it is used")
+	fn := p.FindFunc("resolver.(resolverQuery).finalizeResolve")
+	if !r.Anchor("resolver.(resolverQuery).finalizeResolve", fn != nil) {
+		return r
+	}
+	isLookup := func(in ssa.Instruction) bool {
+		c, ok := in.(*ssa.Call)
+		return ok && strings.HasSuffix(FuncNameOf(c), "resolverQuery).dirInfoCached")
+	}
+	dvals := map[ssa.Value]bool{}
+	eachInstr(fn, func(b *ssa.BasicBlock, in ssa.Instruction) {
+		if isLookup(in) {
+			dvals[in.(*ssa.Call)] = true
+		}
+	})
+	for changed := true; changed; {
+		changed = false
+		eachInstr(fn, func(_ *ssa.BasicBlock, in ssa.Instruction) {
+			if ph, ok := in.(*ssa.Phi); ok && !dvals[ph] {
+				for _, e := range ph.Edges {
+					if dvals[e] {
+						dvals[ph] = true
+						changed = true
+					}
+				}
+			}
+		})
+	}
+	if !r.Anchor("finalizeResolve: dirInfoCached lookups", len(dvals) >= 2) {
+		return r
+	}
+	usesD := func(in ssa.Instruction) bool {
+		if _, isPhi := in.(*ssa.Phi); isPhi {
+			return false
+		}
+		var ops []*ssa.Value
+		for _, op := range in.Operands(ops) {
+			if op != nil && *op != nil && dvals[*op] {
+				return true
+			}
+		}
+		return false
+	}
+	n := 0
+	eachInstr(fn, func(b *ssa.BasicBlock, in ssa.Instruction) {
+		st, ok := in.(*ssa.Store)
+		if !ok {
+			return
+		}
+		fa, ok := st.Addr.(*ssa.FieldAddr)
+		if !ok || fieldAddrName(fa) != "Text" || namedTypeName(fa.X.Type()) != "logger.Path" {
+			return
+		}
+		n++
+		r.Instances++
+		key := fmt.Sprintf("finalizeResolve path rewrite #%d", n)
+		bad := ""
+		// rest of the block after the store
+		fresh := false
+		after := false
+		for _, x := range b.Instrs {
+			if x == in {
+				after = true
+				continue
+			}
+			if !after {
+				continue
+			}
+			if isLookup(x) {
+				fresh = true
+				break
+			}
+			if usesD(x) {
+				bad = p.Pos(x.Pos())
+				break
+			}
+		}
+		if bad == "" && !fresh {
+			seen := map[*ssa.BasicBlock]bool{b: true}
+			work := append([]*ssa.BasicBlock{}, b.Succs...)
+			for len(work) > 0 && bad == "" {
+				x := work[len(work)-1]
+				work = work[:len(work)-1]
+				if seen[x] {
+					continue
+				}
+				seen[x] = true
+				stop := false
+				for _, xi := range x.Instrs {
+					if isLookup(xi) {
+						stop = true
+						break
+					}
+					if usesD(xi) {
+						bad = p.Pos(xi.Pos())
+						break
+					}
+				}
+				if !stop && bad == "" {
+					work = append(work, x.Succs...)
+				}
+			}
+		}
+		if bad != "" {
+			r.Fail(key, p.Pos(st.Pos()), "after the path is rewritten to its real path the old directory info is still used at "+bad+" before (or instead of) a fresh dirInfoCached lookup: a file reached through a symlinked directory gets the tsconfig.json / package.json of the link's location")
+		} else {
+			r.OK(key, true, "every path from the rewrite passes a fresh dirInfoCached lookup before the directory info is used")
+		}
+	})
+	r.Anchor("finalizeResolve: a rewrite of path.Text", n >= 1)
+	return r
+}
